@@ -21,6 +21,7 @@ def run(ctx, rep):
         reader(prog, rep, tag)
         addresses(prog, rep, spec, tag)
         strings(prog, rep, tag)
+        byte_ranges(prog, rep, tag, "C12.range")
         structs(ctx, prog, rep, spec, tag)
 
 
@@ -202,3 +203,81 @@ def strings(prog, rep, tag):
     zero = [cd for cd in q.conds(b) if cd.kind == "cmp" and cd.op == "Eq" and q.const_int(cd.rhs) == 0 and any(x[0] in ("arg", "upvar") and x[-1] == "search_index" for x in pr.of_operand(cd.lhs))]
     d["index-0-is-none"] = len(zero) == 1 and bool(nones)
     rep.ob(P, "skip-index-minus-one" + tag, all(d.values()), "string index i (1-based) skips exactly i-1 earlier strings (loop 0..i-1, each skipped by its own length byte); index 0 is None; %s" % d, loc=b.span, how="dataflow")
+
+
+def byte_ranges(prog, rep, tag, P):
+    """'for any start word, any length': a range opened with start_at(word, len_bytes) covers exactly
+    len_bytes bytes - the length is neither rounded down to whole words nor truncated to 16 bit on the
+    way from the public API (eeprom_read_raw / eeprom_read / eeprom_write_dangerously) to the range."""
+    sa = prog.body("SubDeviceEeprom::start_at")
+    ctor = [c for c in sa.calls() if (c.decl_s or "").startswith("EepromRange::new")]
+    d = {}
+    if len(ctor) == 1:
+        pr = Prov(sa)
+        ln = pr.of_operand(ctor[0].args[2])
+        d["word-passed-on"] = has_root(pr.of_operand(ctor[0].args[1]), "arg", 2)
+        d["length-passed-on-unrounded"] = has_root(ln, "arg", 3) and not any(x[0] == "binop" and x[1] in ("Div", "Shr", "BitAnd", "Sub") for x in ln)
+        d["length-is-usize"] = sa.locals[3]["ty"] == "usize"
+        t = prog.by_path.get(ctor[0].res) or prog.by_path.get(ctor[0].decl)
+        if t is not None:
+            ag = q.aggregates(t, "EepromRange")
+            if len(ag) == 1:
+                pt = Prov(t, follow_all={"num::saturating_add", "num::wrapping_add", "num::checked_add", "TryFrom::try_from", "Result::unwrap_or", "From::from"})
+                st = ag[0][2]
+                en = q.expr_tree(t, q.agg_field(st, "end"), prov=pt)
+                bp = q.expr_tree(t, q.agg_field(st, "byte_pos"), prov=pt)
+
+                def leaf_arg(x, n):
+                    return x[0] == "leaf" and any(r[0] == "arg" and r[1] == n for r in x[1])
+
+                def is_start(x):
+                    return x[0] == "Mul" and ((leaf_arg(x[1], 2) and x[2] == ("const", 2)) or (leaf_arg(x[2], 2) and x[1] == ("const", 2)))
+
+                d["byte_pos=2*word"] = is_start(bp)
+                d["end=2*word+len_bytes"] = en[0] == "Add" and ((is_start(en[1]) and leaf_arg(en[2], 3)) or (is_start(en[2]) and leaf_arg(en[1], 3)))
+                d["shape"] = "byte_pos=%s end=%s" % (q.tree_str(bp), q.tree_str(en))
+            else:
+                d["range-literal"] = False
+        else:
+            d["ctor-body"] = False
+    else:
+        d["one-ctor-call"] = False
+    rep.ob(P, "start_at:exactly-len-bytes" + tag, all(v for k, v in d.items() if k != "shape"), "start_at(word, len_bytes) opens [2*word, 2*word + len_bytes): odd lengths keep their last byte; %s" % d, loc=sa.span)
+    # callers in the public API hand the length over without a narrowing cast
+    for fn, what in (("SubDevice::eeprom_read_raw", "slice::len"), ("SubDevice::eeprom_read", None), ("SubDevice::eeprom_write_dangerously", None)):
+        b = prog.async_body(fn)
+        calls = b.calls_to("SubDeviceEeprom::start_at")
+        ok = len(calls) == 1
+        why = ""
+        if ok:
+            narrowing = _narrowing_casts(b, calls[0].args[2])
+            ok = not narrowing
+            why = "casts on the way: %s" % narrowing if narrowing else "no narrowing cast"
+            if what:
+                ok = ok and has_root(Prov(b).of_operand(calls[0].args[2]), "call", what)
+        rep.ob(P, "%s:length-untruncated%s" % (fn, tag), ok, "%s passes the full length to start_at (%s)" % (fn, why), loc=b.span, how="dataflow")
+
+
+_WIDTH = {"u8": 8, "u16": 16, "u32": 32, "u64": 64, "usize": 64, "i8": 8, "i16": 16, "i32": 32, "i64": 64, "isize": 64, "u128": 128, "i128": 128}
+
+
+def _narrowing_casts(b, op, depth=6):
+    out = []
+    l = q.local_of(op)
+    seen = set()
+    while l is not None and depth > 0 and l not in seen:
+        seen.add(l)
+        depth -= 1
+        defs = b.defs().get(l, [])
+        if len(defs) != 1 or defs[0][2] != "assign":
+            break
+        rv = defs[0][3]["rv"]
+        if rv["k"] == "cast":
+            f, t = _WIDTH.get(rv.get("from")), _WIDTH.get(rv.get("to"))
+            if f and t and t < f:
+                out.append("%s as %s" % (rv.get("from"), rv.get("to")))
+        if rv["k"] in ("cast", "use") and rv.get("a"):
+            l = q.local_of(rv["a"][0])
+        else:
+            break
+    return out
